@@ -148,6 +148,9 @@ SFreq == /\ IsEvent("freq")
          /\ tally' = NoTally /\ pairs' = NoTally
          /\ UNCHANGED <<g, b, np>>
 
-SNext == SGame \/ SBegin \/ SPass \/ SFreq
+\* the unsampled method makes no random draw: the same call made twice returned bitwise the same profile and bounds
+SRepeat == IsEvent("repeat") /\ Rec[l].same /\ UNCHANGED <<g, b, np, tally, pairs>>
+
+SNext == SGame \/ SBegin \/ SPass \/ SFreq \/ SRepeat
 SSpec == SInit /\ [][SNext]_svars
 =================================================================================
